@@ -54,7 +54,13 @@ class Layout:
         self._key[id(self.TPMS_PARAMS)] = "TPMS_PARAMS"
 
     # ------------------------------------------------------------------ collection
+    duplicate_types: list = []
+
     def _collect_structures(self):
+        self.duplicate_types = []
+        return self._collect_structures_impl()
+
+    def _collect_structures_impl(self):
         """Mirror of spec/structures/__init__.py: classes visible in the listed submodules whose
         name is upper-case and does not start with '_' (model guard G-structures checks the rule)."""
         env = self.m.env(STRUCT_PKG)
@@ -69,7 +75,12 @@ class Layout:
                 if isinstance(v, ClassV) and not v.name.startswith("_") and v.name.isupper():
                     prev = out.get(v.name)
                     if prev is not None and prev is not v:
-                        raise AnalysisError(f"two different structure classes named {v.name}")
+                        # a second class object of that name is visible in a layout module (e.g. a filtered copy of an enum bound
+                        # to a module-level name): the table of all types then holds two types of one name.  The layout keeps
+                        # the class that is bound under its own name; the duplicate is reported by C20-T7 / C19.
+                        self.duplicate_types.append((v.name, mv.name, k))
+                        if k != v.name:
+                            continue
                     out[v.name] = v
         return dict(sorted(out.items()))
 
